@@ -3,7 +3,7 @@
    gap; bp_chunked only groups. *)
 From Coq Require Import ZArith List Bool Lia ZifyBool Arith.
 Import ListNotations.
-From SCMO Require Import Lib.Val Lib.Tiling Lib.TilingFacts Model.C17.
+From SCMO Require Import Lib.Val Lib.Tiling Lib.TilingFacts Gen.GenTiling Model.C17 Proofs.C17_shape.
 Open Scope Z_scope.
 
 (* ================================================================== specification (statement level) *)
@@ -30,39 +30,53 @@ Definition spec (sc ec bs : Z) (bl : list iv) (frag : option Z) (out : list obin
   end.
 
 (* ================================================================== fill_range *)
-Lemma fr_up_chain step : 0 < step -> forall fuel s e, s <= e -> e - s < Z.of_nat fuel * step ->
-  chain step s e (fr_up fuel s e step).
+Lemma fr_tail_eq st en step e : fr_tail st en step e = if e <? en then [(e, en)] else [].
 Proof.
-  intros Hs. induction fuel as [| f IH]; intros s e Hle Hf.
-  - cbn [fr_up chain]. lia.
-  - cbn [fr_up]. destruct (s >=? e) eqn:E1.
-    + cbn [chain]. lia.
-    + destruct (s + step <=? e) eqn:E2.
-      * apply chain_cons. split; [reflexivity |]. split; [lia |]. split; [lia |]. split; [lia |]. apply IH; lia.
-      * apply chain_cons. split; [reflexivity |]. split; [lia |]. split; [lia |]. split; [lia |]. reflexivity.
+  unfold fr_tail. rewrite sh_fr_last. destruct (g_fr_tail st en step e) eqn:E.
+  - apply sh_fr_tail in E. destruct (e <? en) eqn:E2; [reflexivity | lia].
+  - apply not_true_iff_false in E. rewrite sh_fr_tail in E. destruct (e <? en) eqn:E2; [lia | reflexivity].
 Qed.
 
-Lemma fill_range_pos s e step : 0 < step -> fill_range s e step = Ok (fr_up (S (Z.to_nat ((e - s) / step))) s e step).
+(* the loop for step > 0: the loop-carried e equals the loop variable at the head of every iteration *)
+Lemma fr_loop_chain st step : 0 < step -> forall fuel en i, i <= en -> en - i < Z.of_nat fuel * step ->
+  chain step i en (fr_loop fuel st en step true en step i i).
 Proof.
-  intros Hs. unfold fill_range. destruct (step =? 0) eqn:E0; [lia |]. destruct (0 <? step) eqn:E1; [reflexivity | lia].
+  intros Hs. induction fuel as [| f IH]; intros en i Hle Hf.
+  - lia.
+  - cbn [fr_loop]. destruct (i >=? en) eqn:E1.
+    + rewrite fr_tail_eq. destruct (i <? en) eqn:E0; [lia |]. cbn [chain]. lia.
+    + cbv zeta. rewrite sh_fr_e. destruct (g_fr_over st en step i (i + step)) eqn:E2.
+      * apply sh_fr_over in E2. rewrite sh_fr_back, fr_tail_eq. replace (i + step - step) with i by lia.
+        destruct (i <? en) eqn:E0; [| lia].
+        apply chain_cons. split; [reflexivity |]. split; [lia |]. split; [lia |]. split; [lia |]. reflexivity.
+      * apply not_true_iff_false in E2. rewrite sh_fr_over in E2. rewrite sh_fr_yield.
+        apply chain_cons. split; [reflexivity |]. split; [lia |]. split; [lia |]. split; [lia |]. apply IH; lia.
+Qed.
+
+Lemma fill_range_pos s e step : 0 < step ->
+  fill_range s e step = Ok (fr_loop (S (Z.to_nat (Z.abs (e - s) / Z.abs step))) s e step true e step s s).
+Proof.
+  intros Hs. unfold fill_range. rewrite sh_fr_range, sh_fr_init. cbv beta iota.
+  destruct (step =? 0) eqn:E0; [lia |]. destruct (0 <? step) eqn:E1; [reflexivity | lia].
 Qed.
 
 Lemma fill_range_partition s e step : 0 < step -> s <= e ->
   exists l, fill_range s e step = Ok l /\ chain step s e l.
 Proof.
-  intros Hs Hle. eexists. split; [apply fill_range_pos; assumption |]. apply fr_up_chain; auto.
+  intros Hs Hle. eexists. split; [apply fill_range_pos; assumption |]. apply fr_loop_chain; auto.
+  rewrite !Z.abs_eq by lia.
   assert (0 <= (e - s) / step) by (apply Z.div_pos; lia).
   rewrite Nat2Z.inj_succ, Z2Nat.id by assumption.
   pose proof (Z.mod_pos_bound (e - s) step Hs). pose proof (Z.div_mod (e - s) step ltac:(lia)). nia.
 Qed.
 
 Lemma fill_range_zero s e : fill_range s e 0 = Raise 1.
-Proof. reflexivity. Qed.
+Proof. unfold fill_range. rewrite sh_fr_range. reflexivity. Qed.
 
 Lemma fill_range_empty s e step : 0 < step -> e <= s -> fill_range s e step = Ok [].
 Proof.
   intros Hs Hle. rewrite fill_range_pos by assumption. f_equal.
-  cbn [fr_up]. destruct (s >=? e) eqn:E; [reflexivity | lia].
+  cbn [fr_loop]. destruct (s >=? e) eqn:E; [| lia]. rewrite fr_tail_eq. destruct (s <? e) eqn:E2; [lia | reflexivity].
 Qed.
 
 (* ================================================================== sorted() *)
@@ -126,14 +140,24 @@ Lemma isort_Forall (P : iv -> Prop) l : Forall P l -> Forall P (isort l).
 Proof. rewrite !Forall_forall. intros H x Hx. apply H. apply isort_In. assumption. Qed.
 
 (* ================================================================== overlap test *)
+Lemma ov_iff a b : ov a b = true <-> fst b < fst a \/ fst b < snd a \/ snd b < snd a \/ snd b < fst a.
+Proof. unfold ov. apply sh_mp_ov. Qed.
+
+(* range_contains_overlap and _merge_overlapping_ranges use the same test *)
+Lemma ov_rco_eq a b : ov_rco a b = ov a b.
+Proof. apply eq_true_iff_eq. unfold ov_rco. rewrite sh_rco_ov, ov_iff. tauto. Qed.
+
 Lemma any_ov_cons2 a b t : any_ov (a :: b :: t) = ov a b || any_ov (b :: t).
-Proof. reflexivity. Qed.
+Proof. change (any_ov (a :: b :: t)) with (ov_rco a b || any_ov (b :: t)). rewrite ov_rco_eq. reflexivity. Qed.
 
 Lemma any_ov_length l : any_ov l = true -> (2 <= length l)%nat.
 Proof. destruct l as [| a [| b t]]; cbn [any_ov length]; try discriminate. lia. Qed.
 
+Lemma any_ov_short l : (length l < 2)%nat -> any_ov l = false.
+Proof. destruct l as [| a [| b t]]; cbn [any_ov length]; auto. lia. Qed.
+
 Lemma ov_false a b : ov a b = false -> snd a <= fst b.
-Proof. destruct a as [s e], b as [ns ne]. unfold ov. cbn [fst snd]. lia. Qed.
+Proof. intros H. apply not_true_iff_false in H. rewrite ov_iff in H. lia. Qed.
 
 (* no reported overlap + well-formed intervals = increasing and pairwise disjoint *)
 Lemma any_ov_false_sdisj : forall l lo, any_ov l = false -> Forall wf l ->
@@ -149,12 +173,15 @@ Proof.
 Qed.
 
 (* ================================================================== one merge pass *)
+Lemma keep1_eq a b : keep1 a b = a.
+Proof. unfold keep1. rewrite sh_mp_keep. destruct a; reflexivity. Qed.
+
 Lemma mpass_true_cons b t : mpass true (b :: t) = mpass false t.
 Proof. destruct t; reflexivity. Qed.
 
 Lemma mpass_cons2 a b t :
   mpass false (a :: b :: t) = if ov a b then merge2 a b :: mpass false t else a :: mpass false (b :: t).
-Proof. destruct t; reflexivity. Qed.
+Proof. destruct t; cbn [mpass]; rewrite keep1_eq; reflexivity. Qed.
 
 Lemma list_ind2 (P : list iv -> Prop) :
   P [] -> (forall a, P [a]) -> (forall a b t, P t -> P (b :: t) -> P (a :: b :: t)) -> forall l, P l.
@@ -179,7 +206,7 @@ Proof.
 Qed.
 
 Lemma merge2_wf a b : wf a -> wf b -> wf (merge2 a b).
-Proof. unfold wf, merge2. cbn [fst snd]. lia. Qed.
+Proof. unfold wf, merge2. rewrite sh_mp_merge. cbn [fst snd]. lia. Qed.
 
 Lemma mpass_wf : forall l, Forall wf l -> Forall wf (mpass false l).
 Proof.
@@ -191,7 +218,10 @@ Qed.
 (* two overlapping intervals with increasing starts: the merged interval is their union *)
 Lemma merge2_inside a b p : fst a <= fst b -> wf a -> wf b -> ov a b = true ->
   (inside p (merge2 a b) <-> inside p a \/ inside p b).
-Proof. destruct a as [s e], b as [ns ne]. unfold wf, ov, merge2, inside. cbn [fst snd]. lia. Qed.
+Proof.
+  intros H1 H2 H3 H4. apply ov_iff in H4. unfold merge2. rewrite sh_mp_merge.
+  unfold wf, inside in *. cbn [fst snd]. lia.
+Qed.
 
 Lemma mpass_covers p : forall l, lsorted l -> Forall wf l -> (covers (mpass false l) p <-> covers l p).
 Proof.
@@ -205,7 +235,11 @@ Qed.
 
 (* ================================================================== merge_overlapping_ranges *)
 Lemma rco_sorted cl : lsorted cl -> range_contains_overlap cl = any_ov cl.
-Proof. intros H. unfold range_contains_overlap. rewrite isort_sorted_id; auto. Qed.
+Proof.
+  intros H. unfold range_contains_overlap. cbv zeta. rewrite isort_sorted_id by assumption.
+  destruct (g_rco_short (Z.of_nat (length cl))) eqn:E; [| reflexivity].
+  apply sh_rco_short in E. symmetry. apply any_ov_short. lia.
+Qed.
 
 (* the while loop terminates within the fuel given by the model (no wf needed) *)
 Lemma merge_loop_total : forall fuel cl, lsorted cl -> (length cl < fuel)%nat -> exists m, merge_loop fuel cl = Some m.
@@ -255,6 +289,13 @@ Lemma trim_cons b l sc ec :
   if trim_keep sc ec b then trim_clip sc ec b :: trim_rangelist l sc ec else trim_rangelist l sc ec.
 Proof. unfold trim_rangelist. cbn [filter]. destruct (trim_keep sc ec b); reflexivity. Qed.
 
+Lemma trim_keep_iff sc ec s e :
+  trim_keep sc ec (s, e) = true <-> (sc <= s < ec) \/ (sc <= e < ec) \/ (s < sc /\ ec <= e).
+Proof. unfold trim_keep. cbn [fst snd]. apply sh_trim_keep. Qed.
+
+Lemma trim_clip_eq sc ec b : trim_clip sc ec b = (Z.max (fst b) sc, Z.min (snd b) ec).
+Proof. unfold trim_clip. apply sh_trim_clip. Qed.
+
 Lemma trim_dchain sc ec : sc <= ec -> forall l lo c, sdisj lo l -> sc <= c -> c <= ec -> c <= Z.max lo sc ->
   dchain c ec (trim_rangelist l sc ec).
 Proof.
@@ -262,7 +303,7 @@ Proof.
   - cbn. assumption.
   - cbn [sdisj] in Hd. destruct Hd as (Ha & Hb & Hc). rewrite trim_cons.
     destruct (trim_keep sc ec (s, e)) eqn:K.
-    + unfold trim_clip. cbn [fst snd dchain]. unfold trim_keep in K.
+    + apply trim_keep_iff in K. rewrite trim_clip_eq. cbn [fst snd dchain].
       split; [lia |]. split; [lia |]. apply (IH e); auto; lia.
     + apply (IH e); auto; lia.
 Qed.
@@ -272,29 +313,50 @@ Proof.
   induction l as [| [s e] l IH].
   - cbn. split; [intros H; destruct (covers_nil _ H) | intros (H & _); destruct (covers_nil _ H)].
   - rewrite trim_cons, covers_cons. unfold inside at 1. cbn [fst snd].
-    destruct (trim_keep sc ec (s, e)) eqn:K; unfold trim_keep in K.
-    + rewrite covers_cons, IH. unfold inside, trim_clip. cbn [fst snd]. split; [intros [H | H] | intros ([H | H] & H')]; try tauto; lia.
-    + rewrite IH. split; [tauto |]. intros ([H | H] & H'); [lia | tauto].
+    destruct (trim_keep sc ec (s, e)) eqn:K.
+    + apply trim_keep_iff in K. rewrite covers_cons, IH, trim_clip_eq. unfold inside. cbn [fst snd].
+      split; [intros [H | H] | intros ([H | H] & H')]; try tauto; lia.
+    + apply not_true_iff_false in K. rewrite trim_keep_iff in K. rewrite IH. split; [tauto |].
+      intros ([H | H] & H'); [lia | tauto].
 Qed.
 
 (* ================================================================== one gap *)
-Lemma gap_bins_spec frag bs cur start : 0 < bs -> cur < start ->
-  exists l, gap_bins frag bs cur start = Ok (map (fun b => (b, window frag cur start (fst b) (snd b))) l) /\
+(* the window of a piece [ps,pe) of the gap [gs,ge): widened by f and clipped to the gap *)
+Definition window (frag : option Z) (gs ge ps pe : Z) : option iv :=
+  match frag with
+  | None => None
+  | Some f => Some (Z.max gs (ps - f), Z.min ge (pe + f))
+  end.
+
+Lemma mk_obin_eq frag sc ec bs start en gs b :
+  mk_obin frag sc ec bs start en gs b = (b, window frag gs start (fst b) (snd b)).
+Proof.
+  unfold mk_obin, window. destruct frag as [f |].
+  - rewrite sh_bb_fs, sh_bb_fe, sh_bb_yield4. destruct b; reflexivity.
+  - rewrite sh_bb_yield2. destruct b; reflexivity.
+Qed.
+
+Lemma gap_bins_spec frag sc ec bs start en cur : 0 < bs -> cur < start ->
+  exists l, gap_bins frag sc ec bs start en cur =
+            Ok (Some (map (fun b => (b, window frag cur start (fst b) (snd b))) l)) /\
             chain bs cur start l.
 Proof.
-  intros Hbs Hlt. unfold gap_bins.
+  intros Hbs Hlt. unfold gap_bins. rewrite sh_bb_tb_args. cbv beta iota.
   destruct (fill_range_partition cur start bs Hbs ltac:(lia)) as (l0 & -> & Hc0).
   pose proof (chain_length_le _ _ _ _ Hc0) as Hlen1. pose proof (chain_length_ge _ _ _ _ Hc0) as Hlen2.
-  set (tb0 := Z.of_nat (length l0)) in *.
+  cbv zeta. set (tb0 := Z.of_nat (length l0)) in *.
   assert (Htb : 1 <= tb0) by nia.
-  destruct (tb0 =? 0) eqn:E; [lia |].
-  rewrite Z.quot_div_nonneg by lia.
+  destruct (g_bb_tb_neg tb0) eqn:N; [apply sh_bb_tb_neg in N; lia |].
+  destruct (g_bb_tb_zero tb0) eqn:E; [apply sh_bb_tb_zero in E; lia |].
+  rewrite sh_bb_lbs, sh_bb_gap_start, sh_bb_fill_args by lia. cbv beta iota.
   assert (Hq : 1 <= (start - cur) / tb0 <= bs).
   { split.
     - apply Z.div_le_lower_bound; lia.
     - apply Z.div_le_upper_bound; [lia |]. nia. }
   destruct (fill_range_partition cur start ((start - cur) / tb0) ltac:(lia) ltac:(lia)) as (l & -> & Hc).
-  exists l. split; [reflexivity |]. eapply chain_mono; [| exact Hc]. lia.
+  exists l. split.
+  - f_equal. f_equal. apply map_ext. intros b. apply mk_obin_eq.
+  - eapply chain_mono; [| exact Hc]. lia.
 Qed.
 
 (* ================================================================== the loop over the blacklist *)
@@ -326,8 +388,8 @@ Proof.
   unfold inside. cbn [fst snd]. repeat split; try lia.
 Qed.
 
-Lemma bb_loop_spec frag bs : 0 < bs -> forall ivs cur hi, dchain cur hi ivs ->
-  exists out, bb_loop frag bs cur ivs = Ok out /\
+Lemma bb_loop_spec frag sc ec bs : 0 < bs -> forall ivs cur hi, dchain cur hi ivs ->
+  exists out, bb_loop frag sc ec bs cur ivs = Ok out /\
     ordered cur (last_end cur ivs) (map fst out) /\
     Forall (fun b => snd b - fst b <= bs) (map fst out) /\
     (forall p, covers (map fst out) p <-> in_gaps cur ivs p) /\
@@ -338,11 +400,12 @@ Proof.
     apply covers_nil.
   - cbn [dchain] in Hd. destruct Hd as (H1 & H2 & H3).
     destruct (IH e hi H3) as (r & Hr & Ho & Hsz & Hcov & Hwin).
-    cbn [bb_loop last_end]. destruct (s =? cur) eqn:E.
-    + exists r. split; [exact Hr |]. split; [eapply ordered_weaken; eauto; lia |]. split; [exact Hsz |]. split.
+    cbn [bb_loop last_end]. destruct (g_bb_skip sc ec bs s e cur) eqn:E.
+    + apply sh_bb_skip in E. rewrite sh_bb_cur_skip. exists r. split; [exact Hr |]. split; [eapply ordered_weaken; eauto; lia |]. split; [exact Hsz |]. split.
       * intros p. rewrite Hcov. cbn [in_gaps]. split; [auto | intros [H | H]; [lia | auto]].
       * eapply Forall_impl; [| exact Hwin]. intros o. apply win_ok_impl. intros p Hp. cbn [in_gaps]. auto.
-    + destruct (gap_bins_spec frag bs cur s Hbs ltac:(lia)) as (l & -> & Hc). rewrite Hr.
+    + apply not_true_iff_false in E. rewrite sh_bb_skip in E.
+      destruct (gap_bins_spec frag sc ec bs s e cur Hbs ltac:(lia)) as (l & -> & Hc). rewrite sh_bb_cur_after, Hr.
       exists (map (fun b => (b, window frag cur s (fst b) (snd b))) l ++ r). split; [reflexivity |].
       rewrite map_app, (map_fst_pairing (fun b => window frag cur s (fst b) (snd b))). split; [| split; [| split]].
       * eapply ordered_app; [eapply chain_ordered; exact Hc | exact Ho | lia].
@@ -368,12 +431,12 @@ Qed.
 
 (* the blacklist after the optional merge: increasing, disjoint, same points *)
 Lemma normalised_blacklist bl : Forall wf bl ->
-  exists m, (if (1 <? Z.of_nat (length bl)) then merge_overlapping_ranges bl else Some bl) = Some m /\
+  exists m, (if g_bb_need_merge (Z.of_nat (length bl)) then merge_overlapping_ranges bl else Some bl) = Some m /\
             sdisj (first_start m) m /\ forall p, covers m p <-> covers bl p.
 Proof.
-  intros Hw. destruct (1 <? Z.of_nat (length bl)) eqn:E.
+  intros Hw. destruct (g_bb_need_merge (Z.of_nat (length bl))) eqn:E.
   - apply merge_spec; assumption.
-  - exists bl. split; [reflexivity |]. split; [| tauto].
+  - apply not_true_iff_false in E. rewrite sh_bb_need_merge in E. exists bl. split; [reflexivity |]. split; [| tauto].
     destruct bl as [| [s e] [| b t]]; cbn [length] in E; [exact I | | lia].
     inversion Hw as [| ? ? Hse _]; subst. unfold wf in Hse. cbn [first_start sdisj fst snd] in *. lia.
 Qed.
@@ -387,10 +450,11 @@ Lemma bb_spec sc ec bs bl frag : 0 < bs -> sc <= ec -> Forall wf bl ->
 Proof.
   intros Hbs Hse Hw. unfold blacklisted_binning.
   destruct (normalised_blacklist bl Hw) as (m & -> & Hsd & Hpts).
+  rewrite sh_bb_trim_args, sh_bb_cur0, sh_bb_sentinel. cbv beta iota.
   set (T := trim_rangelist m sc ec).
   assert (HdT : dchain sc ec T) by (apply (trim_dchain sc ec Hse m (first_start m) sc); auto; lia).
   assert (Hd : dchain sc (ec + 1) (T ++ [(ec, ec + 1)])) by (eapply dchain_snoc; eauto; lia).
-  destruct (bb_loop_spec frag bs Hbs _ _ _ Hd) as (out & Hout & Ho & Hsz & Hcov & Hwin).
+  destruct (bb_loop_spec frag sc ec bs Hbs _ _ _ Hd) as (out & Hout & Ho & Hsz & Hcov & Hwin).
   rewrite last_end_snoc in Ho.
   assert (HG : forall p, in_gaps sc (T ++ [(ec, ec + 1)]) p <-> sc <= p < ec /\ ~ covers bl p).
   { intros p. rewrite (in_gaps_iff _ _ _ p Hd), last_end_snoc, covers_app, covers_cons.
@@ -548,7 +612,7 @@ Section ChunkFacts.
   Proof.
     induction jobs as [| j rest IH]; intros bp cur; cbn [bp_loop].
     - cbn [concat]. rewrite !app_nil_r. reflexivity.
-    - destruct (bp + Z.abs (snd (span j) - fst (span j)) >=? k).
+    - cbv zeta. destruct (g_bp_full (bp + g_bp_inc (fst (span j)) (snd (span j))) k).
       + cbn [concat]. rewrite IH. cbn [app]. rewrite <- app_assoc. reflexivity.
       + rewrite IH. rewrite <- app_assoc. reflexivity.
   Qed.
@@ -571,7 +635,7 @@ Section ChunkFacts.
   Lemma bp_loop_nonempty k : forall jobs bp cur, bp_loop span k bp cur jobs <> [].
   Proof.
     induction jobs as [| j rest IH]; intros bp cur; cbn [bp_loop]; [discriminate |].
-    destruct (bp + Z.abs (snd (span j) - fst (span j)) >=? k); [discriminate | apply IH].
+    cbv zeta. destruct (g_bp_full (bp + g_bp_inc (fst (span j)) (snd (span j))) k); [discriminate | apply IH].
   Qed.
 
   Lemma removelast_cons2 {B} (x : B) l : l <> [] -> removelast (x :: l) = x :: removelast l.
@@ -590,20 +654,21 @@ Section ChunkFacts.
   Proof.
     induction jobs as [| j rest IH]; intros cur Hk Hlt; cbn [bp_loop].
     - cbn [removelast last]. split; [constructor | assumption].
-    - assert (Hs : bp_sum cur + Z.abs (snd (span j) - fst (span j)) = bp_sum (cur ++ [j])).
+    - cbv zeta. rewrite sh_bp_inc, sh_bp_reset.
+      assert (Hs : bp_sum cur + Z.abs (snd (span j) - fst (span j)) = bp_sum (cur ++ [j])).
       { rewrite bp_sum_app, bp_sum_cons. unfold bp_job. cbv [bp_sum fold_right]. lia. }
-      destruct (bp_sum cur + Z.abs (snd (span j) - fst (span j)) >=? k) eqn:E.
-      + pose proof (bp_loop_nonempty k rest 0 []) as Hne.
+      destruct (g_bp_full (bp_sum cur + Z.abs (snd (span j) - fst (span j))) k) eqn:E.
+      + apply sh_bp_full in E. pose proof (bp_loop_nonempty k rest 0 []) as Hne.
         rewrite (removelast_cons2 _ _ Hne), (last_cons2 _ _ _ Hne).
         destruct (IH [] Hk Hk) as (H1 & H2). change (bp_sum []) with 0 in H1, H2.
         split; [| exact H2]. constructor; [| exact H1].
         unfold closed_chunk. rewrite removelast_last. split; [lia |]. split; [assumption |].
         intros Heq. apply app_eq_nil in Heq. destruct Heq as (_ & Heq). discriminate.
-      + rewrite Hs. apply IH; [assumption | lia].
+      + apply not_true_iff_false in E. rewrite sh_bp_full in E. rewrite Hs. apply IH; [assumption | lia].
   Qed.
 
   Theorem bp_chunked_chunks jobs k : 0 < k ->
     Forall (closed_chunk k) (removelast (bp_chunked span jobs k))
     /\ bp_sum (last (bp_chunked span jobs k) []) < k.
-  Proof. intros Hk. unfold bp_chunked. apply (bp_loop_chunks k jobs []); cbv [bp_sum fold_right]; lia. Qed.
+  Proof. intros Hk. unfold bp_chunked. rewrite sh_bp_init. apply (bp_loop_chunks k jobs []); cbv [bp_sum fold_right]; lia. Qed.
 End ChunkFacts.
